@@ -5,14 +5,18 @@ crosscov_vector / autocov_vector, generate_mar, bayesian / akaike information cr
 `nitime/analysis/granger.py`: fit_model).  Core Lean only.
 
 `lwr` is written once over `MatOps M` (the operations `lwr_recursion` uses on square matrices:
-`+ - · neg`, conjugate transpose, `linalg.inv`, identity); the driver runs `M = SqMat n`
-(lists of rows of complex binary64, Gauss–Jordan inverse), `Props/C11.lean` instantiates the same
-definition at any star ring (in particular complex matrices) and ties it to `Lemmas/BlockLevinson`.
+`+ - · neg`, conjugate transpose, `linalg.inv`, identity); the driver runs `M = GSq CF n`
+(`Model/SqMatK.lean`: lists of rows over any `Scalar K`, here complex binary64, Gauss–Jordan inverse),
+`Props/C11.lean` instantiates the same definition at any star ring (in particular complex matrices),
+ties it to `Lemmas/BlockLevinson`, and shows (`lwr_solves_concrete`) that the list-of-rows text at
+`K = ℂ` is the matrix recursion.
 
 `MAR_est_LWR(x, order)` requests `nlags = order + 1` lags (the off-by-one `nlags = order` found by
 this check was repaired in /repo; finding `mar/order-off-by-one`, now status fixed).
 -/
 import Nitime.Model.ARBase
+import Nitime.Model.SqMatK
+import Nitime.Model.GrangerObj
 
 namespace Nitime.C11
 open Nitime.AR Nitime.Proto
@@ -119,7 +123,7 @@ def matsOf (n cnt : Nat) (zs : List CF) : Option (List Mat) :=
 def showMats (ms : List Mat) : String := showCList (ms.foldr (fun m acc => flattenMat m ++ acc) [])
 
 def lwrCF (n : Nat) (rs : List Mat) : List Mat × Mat :=
-  lwr (M := SqMat n) (fun k => rs.getD k (Mat.zeros n)) (rs.length - 1)
+  lwr (M := GSq CF n) (fun k => rs.getD k (GMat.zeros n)) (rs.length - 1)
 
 /-- channel-major data `nc × N` -/
 def chanOf (nc N : Nat) (a : Array CF) : Nat → Nat → CF :=
@@ -159,6 +163,73 @@ def mact (n : Nat) (m : Mat) (v : List CF) : List CF :=
 def chunk (n : Nat) (zs : List CF) : List (List CF) :=
   (List.range (zs.length / n)).map fun t => (List.range n).map fun i => zs.getD (t * n + i) ⟨0.0, 0.0⟩
 
+/-! ### sampled entries of the covariance helper (long records) -/
+
+/-- real-valued data `nc × N`, channel major -/
+def chanOfReal (nc N : Nat) (a : Array Float) : Nat → Nat → CF :=
+  fun i t => if i < nc ∧ t < N then CF.ofFloat (a.getD (i * N + t) 0.0) else ⟨0.0, 0.0⟩
+
+def pairsOf : List Nat → List (Nat × Nat)
+  | i :: j :: rest => (i, j) :: pairsOf rest
+  | _ => []
+
+/-- `crosscov_vector(x, y, nlags)[i, j, :]` for the listed channel pairs: the SAME `crosscovEntry`
+(mean over `N − k` products), whatever the record length -/
+def crosscovSample (x y : Nat → Nat → CF) (N nlags : Nat) (pairs : List (Nat × Nat)) : List CF :=
+  pairs.flatMap fun q => (List.range nlags).map fun k => crosscovEntry x y N q.1 q.2 k
+
+/-! ### `fit_model` on one pair, and `GrangerAnalyzer` re-targeted with `set_input` -/
+
+/-- `(lag, Rxx, coef, ecov)` of `fit_model` (`order = lag − 1`) -/
+abbrev Fit := Nat × List Mat × List Mat × Mat
+
+/-- `fit_model(x1, x2, order, max_order, criterion)` on the two rows `zs` (`2 × N`);
+`order < 0` = `None`; `none` = `ValueError` -/
+def fitPair (crit : String) (order : Int) (maxo N : Nat) (zs : List CF) : Option Fit :=
+  let fitLag (lag : Nat) := lwrCF 2 (autocovMats 2 N lag zs)
+  let out (lag : Nat) : Fit :=
+    let r := fitLag lag
+    (lag, autocovMats 2 N lag zs, r.1, r.2)
+  if order ≥ 0 then some (out (order.toNat + 1)) else
+  let c (lag : Nat) : Float :=
+    let r := fitLag lag
+    if crit = "aic" then aic 2 r.2 2 (lag - 1) (2 * N) else bic 2 r.2 2 (lag - 1) (2 * N)
+  (fitSelect (fun a b => decide (a > b)) c maxo).map out
+
+def showFit (f : Fit) : String :=
+  s!"{f.1 - 1} " ++ showMats f.2.1 ++ " " ++ showMats f.2.2.1 ++ " " ++ showMats [f.2.2.2]
+
+/-- what a `GrangerAnalyzer` points at: the data of its input and the pair list -/
+structure GIn where
+  nproc : Nat
+  ij : List (Nat × Nat)
+  data : Array Float
+
+def GIn.row (d : GIn) (i : Nat) : List CF :=
+  let N := d.data.size / d.nproc
+  (List.range N).map fun t => CF.ofFloat (d.data.getD (i * N + t) 0.0)
+
+/-- `GrangerAnalyzer._model`: `fit_model(self.data[i], self.data[j], …)` for every pair of `ij`
+(the first `ValueError` propagates) -/
+def gFit (crit : String) (order : Int) (maxo : Nat) (d : GIn) : Option (List Fit) :=
+  d.ij.mapM fun q => fitPair crit order maxo (d.data.size / d.nproc) (d.row q.1 ++ d.row q.2)
+
+/-- `S:<nproc>:<i0,j0,i1,j1,…>:<data>` = `GrangerAnalyzer(input)` / `set_input(input)`; `R` = read the model -/
+def parseGOp? (s : String) : Option (GrangerObj.Op GIn) :=
+  if s = "R" then some .readModel else
+  match s.splitOn ":" with
+  | ["S", np, ij, xs] => do
+    let np ← np.toNat?
+    let ij ← parseNatList? ij
+    let xs ← parseFloatList? xs
+    if np = 0 then none else pure (.setInput ⟨np, pairsOf ij, xs.toArray⟩)
+  | _ => none
+
+def showGOut : GrangerObj.Out (List Fit) Unit Unit → List String
+  | .model (some fs) => fs.map fun f => "o" ++ showFit f
+  | .model none => ["E"]
+  | _ => []
+
 def handle (args : List String) : String :=
   match args with
   | ["lwr", n, rs] => match n.toNat?, parseCList? rs with
@@ -176,22 +247,13 @@ def handle (args : List String) : String :=
     | some nc, some order, some zs =>
       if nc = 0 then "bad-op" else
       let rs := autocovMats nc (zs.length / nc) (marLags order) zs
-      let r := marEstLWR (M := SqMat nc) (fun k => rs.getD k (Mat.zeros nc)) order
+      let r := marEstLWR (M := GSq CF nc) (fun k => rs.getD k (GMat.zeros nc)) order
       "ok " ++ showMats r.1 ++ " " ++ showMats [r.2]
     | _, _, _ => "bad-op"
   | ["fit", crit, order, maxo, xs] => match order.toInt?, maxo.toNat?, parseCList? xs with
     | some order, some maxo, some zs =>
-      let N := zs.length / 2
-      let fitLag (lag : Nat) := lwrCF 2 (autocovMats 2 N lag zs)
-      let out (lag : Nat) :=
-        let r := fitLag lag
-        s!"ok {lag - 1} " ++ showMats (autocovMats 2 N lag zs) ++ " " ++ showMats r.1 ++ " " ++ showMats [r.2]
-      if order ≥ 0 then out (order.toNat + 1) else
-      let c (lag : Nat) : Float :=
-        let r := fitLag lag
-        if crit = "aic" then aic 2 r.2 2 (lag - 1) (2 * N) else bic 2 r.2 2 (lag - 1) (2 * N)
-      match fitSelect (fun a b => decide (a > b)) c maxo with
-      | some lag => out lag
+      match fitPair crit order maxo (zs.length / 2) zs with
+      | some f => "ok " ++ showFit f
       | none => "err ValueError"
     | _, _, _ => "bad-op"
   | ["fitc", tbl, maxo, xs] => match parseFloatList? tbl, maxo.toNat?, parseCList? xs with
@@ -212,6 +274,26 @@ def handle (args : List String) : String :=
         let out := generateMar vsub (mact nc) [] (Mat.zeros nc) a (chunk nc nzs)
         "ok " ++ showCList (out.foldr (fun v acc => v ++ acc) [])
       | none => "bad-op"
+    | _, _, _ => "bad-op"
+  | ["acovs", nc, nl, prs, xs] => match nc.toNat?, nl.toNat?, parseNatList? prs, parseFloatList? xs with
+    | some nc, some nl, some prs, some xs =>
+      if nc = 0 then "bad-op" else
+      let N := xs.length / nc
+      let x := chanOfReal nc N xs.toArray
+      "ok " ++ showCList (crosscovSample x x N nl (pairsOf prs))
+    | _, _, _, _ => "bad-op"
+  | ["ccovs", nc, nl, prs, xs, ys] =>
+    match nc.toNat?, nl.toNat?, parseNatList? prs, parseFloatList? xs, parseFloatList? ys with
+    | some nc, some nl, some prs, some xs, some ys =>
+      if nc = 0 then "bad-op" else
+      let N := xs.length / nc
+      "ok " ++ showCList (crosscovSample (chanOfReal nc N xs.toArray) (chanOfReal nc N ys.toArray) N nl (pairsOf prs))
+    | _, _, _, _, _ => "bad-op"
+  | "gseq" :: crit :: order :: maxo :: toks => match order.toInt?, maxo.toNat?, toks.mapM parseGOp? with
+    | some order, some maxo, some (.setInput d :: ops) =>
+      let outs := GrangerObj.run (gFit crit order maxo) (fun _ _ => ()) (fun _ => ()) ops
+        (GrangerObj.construct d : GrangerObj.Obj GIn (List Fit) Unit Unit)
+      "ok " ++ " ".intercalate (outs.flatMap showGOut)
     | _, _, _ => "bad-op"
   | _ => "bad-op"
 
